@@ -731,6 +731,99 @@ func x7Bare(p *an.Prog, r *an.Result) {
 			}
 		})
 	}
+	// an interned value is returned only for the very constant it wraps: `case 0: return zeroValue`
+	// compares an interface with an int constant; adding 0.0 to the case makes a float the int 0
+	for uf := range voUnit {
+		uf := uf
+		an.EachInstr(uf, func(in ssa.Instruction) {
+			ret, ok := in.(*ssa.Return)
+			if !ok {
+				return
+			}
+			for _, o := range an.Origins(resultsOf(ret)[0], an.StepValue) {
+				if m0, ok := o.(*ssa.MakeInterface); ok {
+					o = m0.X
+				}
+				ld, ok := o.(*ssa.UnOp)
+				if !ok || !isBare(ld.Type()) {
+					continue
+				}
+				g, ok := ld.X.(*ssa.Global)
+				if !ok {
+					continue
+				}
+				mi := ld
+				// what the interned variable wraps
+				var wrappedC *ssa.Const
+				for _, pf := range p.Funcs {
+					an.EachInstr(pf, func(in2 ssa.Instruction) {
+						st, ok := in2.(*ssa.Store)
+						if !ok {
+							return
+						}
+						if fa, ok := st.Addr.(*ssa.FieldAddr); ok && fa.X == ssa.Value(g) && fieldName(fa) == "value" {
+							v := st.Val
+							if m2, ok := v.(*ssa.MakeInterface); ok {
+								v = m2.X
+							}
+							if c, ok := v.(*ssa.Const); ok {
+								wrappedC = c
+							}
+						}
+					})
+				}
+				if wrappedC == nil {
+					continue
+				}
+				// the comparisons that lead here: value == K (an interface against a boxed constant)
+				// (a case with several values has one comparison per value: each is an edge into the arm)
+				type guard struct {
+					Cond ssa.Value
+					True bool
+				}
+				var gds []guard
+				for _, gd := range an.GuardsAt(mi.Block()) {
+					gds = append(gds, guard{gd.Cond, gd.True})
+				}
+				for _, pb := range mi.Block().Preds {
+					if ifi, ok := pb.Instrs[len(pb.Instrs)-1].(*ssa.If); ok && len(pb.Succs) == 2 {
+						gds = append(gds, guard{ifi.Cond, pb.Succs[0] == mi.Block()})
+					}
+				}
+				seenCond := map[ssa.Value]bool{}
+				for _, gd := range gds {
+					if seenCond[gd.Cond] {
+						continue
+					}
+					seenCond[gd.Cond] = true
+					b, ok := gd.Cond.(*ssa.BinOp)
+					if !ok || b.Op != token.EQL || !gd.True {
+						continue
+					}
+					for _, pair := range [][2]ssa.Value{{b.X, b.Y}, {b.Y, b.X}} {
+						if pair[0] != ssa.Value(uf.Params[0]) {
+							continue
+						}
+						k := pair[1]
+						if m2, ok := k.(*ssa.MakeInterface); ok {
+							k = m2.X
+						}
+						kc, ok := k.(*ssa.Const)
+						if !ok {
+							continue
+						}
+						r.Counts["interned returns"]++
+						same := types.Identical(kc.Type(), wrappedC.Type()) && (kc.Value == nil && wrappedC.Value == nil || kc.Value != nil && wrappedC.Value != nil && kc.Value.ExactString() == wrappedC.Value.ExactString())
+						if same {
+							r.OK(an.FuncName(uf), "interned "+g.Name()+" returned for the constant it wraps", an.InstrPos(mi), "")
+						} else {
+							r.Bad(an.FuncName(uf), "interned "+g.Name()+" returned for another constant", an.InstrPos(mi), fmt.Sprintf("%s answers the interned %s (which wraps %s of type %s) where the argument equals %s of type %s: the value changes its Go type on the way in - a float 1.0 becomes the int 1, and integer division is chosen for it", an.FuncName(uf), g.Name(), wrappedC.Value, wrappedC.Type(), kc.Value, kc.Type()))
+						}
+					}
+				}
+			}
+		})
+	}
 	// the nil value
 	var nilG *ssa.Global
 	if vo.Pkg != nil {
@@ -924,6 +1017,46 @@ func runF2(p *an.Prog, r *an.Result) {
 		}
 	}
 	r.Floor("string offsets", 3)
+	// a byte is not a character: in the value layer and the filters one byte of a string (s[i]) is
+	// never converted to a rune - the lead byte of a multi-byte character converts to another character
+	for _, fn := range p.Funcs {
+		if fn.Blocks == nil || fn.Pkg == nil || isMainPkg(fn) {
+			continue
+		}
+		if rp := an.RelPkg(fn.Pkg.Pkg.Path()); rp != "values" && rp != "filters" {
+			continue
+		}
+		name := roles.Label(fn)
+		an.EachInstr(fn, func(in ssa.Instruction) {
+			cv, ok := in.(*ssa.Convert)
+			if !ok {
+				return
+			}
+			from, ok1 := cv.X.Type().Underlying().(*types.Basic)
+			to, ok2 := cv.Type().Underlying().(*types.Basic)
+			if !ok1 || !ok2 || from.Kind() != types.Uint8 || to.Kind() != types.Int32 {
+				return
+			}
+			if _, _, isIdx := stringIndex(cv.X); !isIdx {
+				return
+			}
+			r.Counts["bytes used as characters"]++
+			// fine under a test that the byte is ASCII
+			ascii := false
+			for _, g := range an.GuardsAtInstr(cv) {
+				if b, ok := g.Cond.(*ssa.BinOp); ok {
+					if c, isC := an.ConstInt(b.Y); isC && c == 128 && (b.Op == token.LSS && g.True || b.Op == token.GEQ && !g.True) && sameValue(b.X, cv.X) {
+						ascii = true
+					}
+				}
+			}
+			if ascii {
+				r.OK(name, "byte of a string used as a character under an ASCII test", cv.Pos(), "")
+			} else {
+				r.Bad(name, "byte of a string used as a character: rune("+describe(p, cv.X)+")", cv.Pos(), fmt.Sprintf("%s converts one byte of a string to a rune: for a multi-byte character that is its lead byte, which is another character (é is searched for as Ã)", an.FuncName(fn)))
+			}
+		})
+	}
 }
 
 // ---------------------------------------------------------------------------
